@@ -350,6 +350,10 @@ func reportProperty(o *Options, run *propRun, meta *PropMeta, known *KnownFile, 
 		}
 	}
 	trusted := trustedBase(run, cs)
+	// bounded stand-ins for functions outside the verifier's reach (zz_bounded.go): labelled bounded,
+	// never counted among the discharged obligations
+	boundedRes, boundedViol := runBoundedChecks(o, id)
+	violations += boundedViol
 	ev := map[string]any{
 		"property_id": id,
 		"tier":        o.Tier,
@@ -380,6 +384,9 @@ func reportProperty(o *Options, run *propRun, meta *PropMeta, known *KnownFile, 
 		if len(meta.Bounded) > 0 {
 			cov["bounded"] = meta.Bounded
 		}
+	}
+	if len(boundedRes) > 0 {
+		ev["coverage"].(map[string]any)["bounded_checks"] = boundedRes
 	}
 	os.MkdirAll(filepath.Join(verifDir, "evidence"), 0o755)
 	data, _ := json.MarshalIndent(ev, "", " ")
